@@ -26,6 +26,7 @@ type c19Cfg struct {
 	Menu    int // which set of entry points the threads run
 	Bound   int
 	Partial bool // readers only: the shared buffer's last frame is partly filled (C-1 samples appended after 5 frames)
+	Frames  int  // frames of the shared buffer (0: 6)
 }
 
 type c19Case struct {
@@ -34,7 +35,6 @@ type c19Case struct {
 	Race    bool   `json:"race,omitempty"`
 }
 
-const c19Frames = 6
 
 type c19H struct {
 	cfg    c19Cfg
@@ -53,13 +53,21 @@ type c19H struct {
 
 func (h *c19H) Threads() int { return h.cfg.R + h.cfg.W }
 
+func (h *c19H) frames() int {
+	if h.cfg.Frames > 0 {
+		return h.cfg.Frames
+	}
+	return 6
+}
+
 func (h *c19H) Init() {
 	C := h.cfg.C
+	c19Frames := h.frames()
 	if h.cfg.Partial {
 		// no shape method is called on the shared header before the threads start
 		h.parent = dyn.Alloc(h.t, al(C, c19Frames-1, c19Frames))
 		for i := 0; i < C*(c19Frames-1); i++ {
-			h.parent.SetSample(i, dyn.Tok(h.t, int64(1+i)))
+			h.parent.SetSample(i, dyn.Tok(h.t, tk(int64(1+i))))
 		}
 		for k := 0; k < C-1; k++ {
 			h.parent.AppendSample(dyn.Tok(h.t, int64(100+k)))
@@ -67,7 +75,7 @@ func (h *c19H) Init() {
 	} else {
 		h.parent = dyn.Alloc(h.t, al(C, c19Frames, c19Frames))
 		for i := 0; i < C*c19Frames; i++ {
-			h.parent.SetSample(i, dyn.Tok(h.t, int64(1+i)))
+			h.parent.SetSample(i, dyn.Tok(h.t, tk(int64(1+i))))
 		}
 	}
 	h.roEnd = c19Frames
@@ -102,6 +110,7 @@ func (h *c19H) reader(id int) {
 	C := h.cfg.C
 	n := C * h.roEnd
 	full := h.roEnd // frames that are completely filled
+	c19Frames := h.frames()
 	if h.cfg.Partial {
 		n = C*(c19Frames-1) + C - 1
 		full = c19Frames - 1
@@ -238,8 +247,8 @@ func (h *c19H) Finish() []string {
 		// the read-only region must still hold the initial tokens
 		var r []string
 		for i := 0; i < h.cfg.C*h.roEnd && i < len(final); i++ {
-			want := int64(1 + i)
-			if h.cfg.Partial && i >= h.cfg.C*(c19Frames-1) {
+			want := tk(int64(1 + i))
+			if c19Frames := h.frames(); h.cfg.Partial && i >= h.cfg.C*(c19Frames-1) {
 				want = int64(100 + i - h.cfg.C*(c19Frames-1))
 			}
 			if final[i].Tok() != want {
@@ -330,7 +339,15 @@ func c19Configs(tier string, race bool) []c19Cfg {
 			}
 		}
 	}
+	addWide := func(R, bound int) { // more than 8 channels, and long (>= 1024 samples) shared buffers
+		for _, m := range all {
+			r = append(r, c19Cfg{T: "int64", C: 9, R: R, W: 0, Menu: m, Bound: bound})
+			r = append(r, c19Cfg{T: "int8", C: 2, R: R, W: 0, Menu: m, Bound: bound, Frames: 600})
+			r = append(r, c19Cfg{T: "uint16", C: 2, R: 1, W: 2, Menu: m, Bound: bound, Frames: 600})
+		}
+	}
 	if race {
+		addWide(2, 2)
 		if tier == "thorough" {
 			add(2, 0, -1, all, []int{1, 2})
 			addPartial(2, -1)
@@ -351,6 +368,7 @@ func c19Configs(tier string, race bool) []c19Cfg {
 	}
 	add(2, 0, -1, all, []int{1, 2})
 	addPartial(2, -1)
+	addWide(2, -1)
 	add(3, 0, -1, all, []int{2})
 	add(1, 1, -1, all, []int{1, 2})
 	add(2, 2, -1, all, []int{1, 2})
